@@ -393,9 +393,14 @@ func (fc *FnCtx) specCall(env *Env, e *Expr) Val {
 		}
 	case "cap":
 		return mathInt(fc.specSliceArg(env, e.Args[0]).Cap)
-	case "V":
+	case "V", "V2":
+		mk := mkV
+		if e.Name == "V2" {
+			mk = mkV2
+		}
 		if len(e.Args) == 1 {
-			return mathInt(fc.specV(env, fc.specSliceArg(env, e.Args[0])))
+			s := fc.specSliceArg(env, e.Args[0])
+			return mathInt(mk(mkSelect(fc.heapIn(env.heap, "Mem", SMem), s.Arr), s.Off, mkAdd(s.Off, s.Len)))
 		}
 		if len(e.Args) == 3 {
 			// V(s, lo, hi): value of s[lo:hi]
@@ -405,10 +410,12 @@ func (fc *FnCtx) specCall(env *Env, e *Expr) Val {
 			if e.Args[0].Kind == "old" {
 				hp = env.oldHeap // V(old(s), lo, hi): words as they were at entry
 			}
-			return mathInt(mkV(mkSelect(fc.heapIn(hp, "Mem", SMem), s.Arr), mkAdd(s.Off, lo), mkAdd(s.Off, hi)))
+			return mathInt(mk(mkSelect(fc.heapIn(hp, "Mem", SMem), s.Arr), mkAdd(s.Off, lo), mkAdd(s.Off, hi)))
 		}
 	case "P":
 		return mathInt(mkP(arg(0).T))
+	case "P2":
+		return mathInt(mkP2(arg(0).T))
 	case "p10":
 		return mathInt(mkP10(arg(0).T))
 	case "wordsok":
@@ -726,7 +733,7 @@ func (fc *FnCtx) evalLemma(env *Env, e *Expr) Val {
 	// array-typed identifiers are bound to opaque array terms; V/sel over them are handled here
 	switch e.Kind {
 	case "call":
-		if e.Name == "V" && len(e.Args) == 3 && e.Args[0].Kind == "ident" {
+		if (e.Name == "V" || e.Name == "V2") && len(e.Args) == 3 && e.Args[0].Kind == "ident" {
 			if m, ok := env.names[e.Args[0].Name]; ok && m.K == VOpaque && m.T.Sort == SArr {
 				off := mkI(0)
 				if o, ok := env.names[e.Args[0].Name+"_off"]; ok {
@@ -734,10 +741,13 @@ func (fc *FnCtx) evalLemma(env *Env, e *Expr) Val {
 				}
 				lo := fc.evalLemma(env, e.Args[1]).T
 				hi := fc.evalLemma(env, e.Args[2]).T
+				if e.Name == "V2" {
+					return mathInt(mkV2(m.T, mkAdd(off, lo), mkAdd(off, hi)))
+				}
 				return mathInt(mkV(m.T, mkAdd(off, lo), mkAdd(off, hi)))
 			}
 		}
-		if e.Name == "P" || e.Name == "p10" || e.Name == "min" || e.Name == "max" {
+		if e.Name == "P" || e.Name == "P2" || e.Name == "p10" || e.Name == "min" || e.Name == "max" {
 			var args []Val
 			for _, a := range e.Args {
 				args = append(args, fc.evalLemma(env, a))
@@ -745,6 +755,8 @@ func (fc *FnCtx) evalLemma(env *Env, e *Expr) Val {
 			switch e.Name {
 			case "P":
 				return mathInt(mkP(args[0].T))
+			case "P2":
+				return mathInt(mkP2(args[0].T))
 			case "p10":
 				return mathInt(mkP10(args[0].T))
 			case "min":
